@@ -392,3 +392,18 @@ package dawn
 //@ func dawn.newLineWriter
 //@   ensures result != nil && !old(allocated(result))
 //@   ensures result.label == label && result.events == events
+
+// C06: each module file is executed at most once per load. load() runs only on a module allocated by
+// the calling loadModule (callsite only-the-creator-loads), that call registers it under proj.m in the
+// critical section that saw the label absent, and registered entries are never replaced (guarantee
+// modules-grow): two calls that both run load() for one label would both have registered an object
+// for it, the later one replacing the earlier.
+//@ lemma C06-once int <<<
+//@ (declare-fun has0 (Str) Bool) (declare-fun val0 (Str) Ref)
+//@ (declare-fun has1 (Str) Bool) (declare-fun val1 (Str) Ref)
+//@ (declare-const k Str) (declare-const m1 Ref) (declare-const m2 Ref)
+//@ (assert (and (has0 k) (= (val0 k) m1)))            ; the first creator registered m1 under k
+//@ (assert (forall ((x Str)) (=> (has0 x) (and (has1 x) (= (val1 x) (val0 x))))))   ; modules-grow
+//@ (assert (not (= m1 m2)))                            ; a second creator allocated its own module
+//@ (assert (and (has1 k) (= (val1 k) m2)))            ; ... and registered it under the same label later
+//@ >>>
